@@ -135,7 +135,7 @@ theorem text_update_forest (s : FState) (hb : Base s.ph) (segs : List Seg) (hn :
       Reads (some (emitted segs)) rt rs ∧ PlainFor s.ph (strOf rt) ∧ PlainL s.ph rs := by
   have ha : Above s.ph := hb.closed.lob
   have hG := good_forest s.ph hb segs hn hl
-  obtain ⟨rs, nrs, prs, crs⟩ := hG.forest ha
+  obtain ⟨rs, nrs, prs, crs⟩ := hG.forest ha hb.tok hb.closed
   have hAK := hG.altOK ha
   have ht0 : PlainFor s.ph (altOf segs).1 := by
     rw [altOf_fst]; exact plainFor_of_low s.ph ha _ (low_front segs hl)
